@@ -53,7 +53,7 @@ type engineError struct {
 
 func isEngineAbort(r interface{}) bool {
 	switch r.(type) {
-	case pathAbort, unsupportedErr, engineError:
+	case pathAbort, unsupportedErr, engineError, goexit:
 		return true
 	}
 	return false
